@@ -15,7 +15,7 @@ ASSUMPTIONS = ['Euler round trip compared modulo 2 pi with tolerance 1e-12 / cos
                'powers: 1e-10 for angles >= 1e-2, 1e-6 below (same arccos conditioning, amplified by |a| <= 3)', 'powers: q**a compared as a rotation (sign-agnostic) AND as a quaternion for |a theta| <= pi (principal branch)',
                'exp(log q) = q: 1e-12 for angles >= 1e-2, 1e-7 below (the logarithm uses arccos of the scalar part, absolute error eps/sin(theta/2))',
                'matrix <-> axis-angle parameter comparison near 0 and pi is not made: arccos of the trace loses half of the digits there']
-REQUIRED_CLASSES = ['rpy', 'axang', 'explog:unit', 'explog:nonunit', 'pow', 'pow-pairs', 'seq len1', 'seq len2', 'seq len3', 'log:small', 'log:regular']
+REQUIRED_CLASSES = ['rpy', 'rpy:degrees', 'axang', 'explog:unit', 'explog:nonunit', 'pow', 'pow-pairs', 'seq len1', 'seq len2', 'seq len3', 'log:small', 'log:regular']
 
 PI = math.pi
 RY = [-PI + 1e-9, -3.0, -PI / 2, -1.0, -1e-3, -1e-9, 0.0, 1e-9, 1e-3, 0.7, PI / 2, 2.0, 2.5, 3.0, PI - 1e-9, PI]     # roll / yaw, 16
@@ -63,6 +63,32 @@ def job_rpy(ctx, lo, hi):
                 ra = np.asarray(rr_, float)
                 e = min(np.abs(ra - qref).max(), np.abs(ra + qref).max()) if ra.shape == (4,) else float('inf')
                 ctx.expect(e <= 1e-12, f'{nm}: result kept while other conversions are made still equals qz(yaw) qy(pitch) qx(roll)', key, ra, qref, 1e-12)
+        # the degree option of the function routes, the caller keeping and re-using its array of degrees
+        for (key, ang, qref, tol) in rows[::5]:
+            deg = np.degrees(ang)
+            deg0 = deg.copy()
+            for nm, fn in (('rpy2q', O.rpy2q), ('cardan2q', O.cardan2q)):
+                q1 = np.asarray(fn(deg, in_deg=True), float)
+                ctx.expect(np.array_equal(deg, deg0), f"{nm}(angles, in_deg=True) leaves the caller's array of degrees unchanged", key, deg.copy(), deg0)
+                deg[...] = deg0
+                e = min(np.abs(q1 - qref).max(), np.abs(q1 + qref).max()) if q1.shape == (4,) else float('inf')
+                ctx.expect(e <= 1e-12, f'{nm}(degrees, in_deg=True): quaternion = qz(yaw) qy(pitch) qx(roll)', key, q1, qref, 1e-12)
+                q2 = np.asarray(fn(deg, in_deg=True), float)
+                deg[...] = deg0
+                ctx.expect(np.array_equal(q1, q2), f'{nm}(degrees, in_deg=True): converting the same array twice gives the same quaternion', key, q2, q1)
+                if q1.shape == (4,):
+                    qk = q1.copy()
+                    b = np.asarray(O.q2rpy(qk, in_deg=True), float)
+                    ctx.expect(np.array_equal(qk, q1), "q2rpy(q, in_deg=True) leaves the caller's quaternion unchanged", key, qk, q1)
+                    ctx.expect(float(np.abs(wrap(np.radians(b) - ang)).max()) <= tol, f'{nm} -> q2rpy in degrees: angles round-trip', key, b, deg0, tol)
+            ctx.cls('rpy:degrees')
+        DegN = np.degrees(np.array([r[1] for r in rows[::5]])); DegN0 = DegN.copy()
+        QN = np.asarray(O.rpy2q(DegN, in_deg=True), float)
+        ctx.expect(np.array_equal(DegN, DegN0), "rpy2q(N-by-3 angles, in_deg=True) leaves the caller's array unchanged", f'roll={roll:.12g}', DegN[:1].copy(), DegN0[:1])
+        if QN.shape == (len(DegN0), 4):
+            for (key, ang, qref, tol), q in zip(rows[::5], QN):
+                e = min(np.abs(q - qref).max(), np.abs(q + qref).max())
+                ctx.expect(e <= 1e-12, 'rpy2q(N-by-3 degrees, in_deg=True): rows = qz(yaw) qy(pitch) qx(roll)', key, q, qref, 1e-12)
         # array route, all rows of this roll at once
         Ang = np.array([r[1] for r in rows])
         QA = QuaternionArray(rpy=Ang.copy())
@@ -222,6 +248,20 @@ def job_pow(ctx, lo, hi):
                 ctx.close(r, q, 1e-12 if ang >= 1e-2 else 1e-7, 'q**1 = q', key)
             if a == 0.0:
                 ctx.close(r, one, 1e-12, 'q**0 = 1', key)
+            # the same exponent carried by other numeric types
+            carriers = [('numpy.float64', np.float64(a)), ('numpy.float32', np.float32(a))] if float(np.float32(a)) == a else [('numpy.float64', np.float64(a))]
+            if a == int(a):
+                carriers += [('int', int(a)), ('numpy.int64', np.int64(int(a))), ('numpy.int8', np.int8(int(a)))]
+            for cn, ac in carriers:
+                try:
+                    rc = np.asarray(Qq ** ac, float)
+                except TypeError:
+                    ctx.outcome(('exponent-type-refused', cn))
+                    continue
+                except Exception as ex:
+                    ctx.fail('q**a raises', f'{key} exponent-type={cn}', repr(ex), 'a quaternion')
+                    continue
+                ctx.close(rc, r, 1e-12, 'q**a does not depend on the numeric type carrying the exponent', f'{key} exponent-type={cn}')
             ctx.cls('pow')
             ctx.seen(('pow', ia, ang, a))
         for a, b in itertools.product(EXPO, EXPO):
